@@ -403,6 +403,39 @@ Proof.
   - rewrite lookup_replace_other by congruence. rewrite Fr by exact N. apply R.
 Qed.
 
+(* ------------------------------------------------------------------ exact retransmissions (fix C09-dup) *)
+Lemma all_placed_true m n : forall off, (forall k, (k < n)%nat -> m (off + N.of_nat k) <> None) -> all_placed m off n = true.
+Proof.
+  induction n as [|n IH]; intros off H; [reflexivity|]. cbn.
+  pose proof (H 0%nat ltac:(lia)) as H0. rewrite N.add_0_r in H0.
+  destruct (m off); [|congruence]. cbn. apply IH. intros k Hk.
+  specialize (H (S k) ltac:(lia)). replace (off + 1 + N.of_nat k) with (off + N.of_nat (S k)) by lia. exact H.
+Qed.
+
+Lemma exact_dup_all_placed m (segs : list seg) off (pay : bytes) :
+  map_segs m segs -> pdisj segs -> exact_dup segs off pay = true -> all_placed m off (length pay) = true.
+Proof.
+  intros Hm D E. unfold exact_dup in E. apply existsb_exists in E. destruct E as (x & Hin & Hx).
+  apply andb_true_iff in Hx. destruct Hx as [H1 H2]. apply N.eqb_eq in H1. apply bytes_eqb_eq in H2.
+  apply all_placed_true. intros k Hk. rewrite Hm.
+  destruct (in_seg_in x (off + N.of_nat k)) as [b Eb]; [lia | unfold seg_len; rewrite H2; lia|].
+  rewrite (lookup_member segs x _ b D Hin Eb). discriminate.
+Qed.
+
+Lemma retrans_exact_dup isn data0 (segs : list seg) seq (pay : bytes) :
+  data0_ok isn data0 -> isn < seq -> seq < two32 ->
+  is_retrans (data0 ++ map (seg_td isn) segs) (mkTd seq pay) = exact_dup segs (seq_offset isn seq) pay.
+Proof.
+  intros H0 H1 H2. unfold is_retrans, exact_dup. rewrite existsb_app. cbn [td_seq td_data].
+  assert (existsb (fun d => (td_seq d =? seq) && bytes_eqb (td_data d) pay) data0 = false) as ->.
+  { destruct H0 as [-> | ->]; [reflexivity|]. cbn. assert (isn =? seq = false) as -> by (apply N.eqb_neq; lia). reflexivity. }
+  cbn [orb td_seq td_data]. rewrite seq_offset_nowrap by assumption.
+  induction segs as [|x l IH]; [reflexivity|]. cbn [map existsb seg_td td_seq td_data]. rewrite IH. f_equal. f_equal.
+  destruct (fst x =? seq - isn - 1) eqn:E.
+  - apply N.eqb_eq in E. apply N.eqb_eq. lia.
+  - apply N.eqb_neq in E. apply N.eqb_neq. lia.
+Qed.
+
 Section Reorder.
   Context {Req Resp : Type}.
   Variable parse_req : bytes -> option Req.
@@ -417,14 +450,16 @@ Section Reorder.
   (* the three flags of a not yet reported direction, unpacked *)
   Lemma classify_dir_false {R} (parse : bytes -> option R) d isn seq (pay : bytes) :
     d_done d = false -> classify_dir parse d isn seq pay = (false, false, false) ->
-    (seq <=? isn) = false /\ any_placed (d_map d) (seq_offset isn seq) (length pay) = false /\
+    (seq <=? isn) = false /\
+    any_placed (d_map d) (seq_offset isn seq) (length pay) && negb (exact_dup (d_segs d) (seq_offset isn seq) pay) = false /\
     segs_disjoint_b (d_segs d ++ [(seq_offset isn seq, pay)])
     && (N.of_nat (length (prefix_from (place (d_map d) (seq_offset isn seq) pay) (d_recv d + length pay) 0))
         <? N.of_nat (d_recv d + length pay))
     && opt_some (parse (squeezed (d_segs d ++ [(seq_offset isn seq, pay)]))) = false.
   Proof. unfold classify_dir. intros ->. intros [= -> H ->]. auto. Qed.
 
-  (* model and specification parse the same thing, or both nothing *)
+  (* an exact retransmission changes nothing on either side; otherwise model and specification parse
+     the same thing, or both nothing *)
   Lemma step_parse {R} (parse : bytes -> option R) data0 d isn tds seq (pay : bytes) :
     prefix_stable parse ->
     data0_ok isn data0 -> seq < two32 -> pay <> [] -> d_done d = false -> drel2 data0 d isn tds ->
@@ -432,15 +467,26 @@ Section Reorder.
     let m := place (d_map d) (seq_offset isn seq) pay in
     let n := (d_recv d + length pay)%nat in
     let sg := d_segs d ++ [(seq_offset isn seq, pay)] in
-    parse (full_data (tds ++ [mkTd seq pay])) = parse (prefix_from m n 0) /\
-    forall done, drel2 data0 (mkDir (d_isn d) m n done sg) isn (tds ++ [mkTd seq pay]).
+    (is_retrans tds (mkTd seq pay) = true /\ all_placed (d_map d) (seq_offset isn seq) (length pay) = true) \/
+    (is_retrans tds (mkTd seq pay) = false /\ all_placed (d_map d) (seq_offset isn seq) (length pay) = false /\
+     parse (full_data (tds ++ [mkTd seq pay])) = parse (prefix_from m n 0) /\
+     forall done, drel2 data0 (mkDir (d_isn d) m n done sg) isn (tds ++ [mkTd seq pay])).
   Proof.
     intros St H0 Hs Hp Hd Hrel Hc m n sg.
     destruct (classify_dir_false parse d isn seq pay Hd Hc) as (Hw & Ha & Hg).
-    destruct (dir_advance2 data0 d isn tds seq pay H0 Hs Hp Hrel Hw Ha) as (Hnew & Hfull & (rest & Hrest) & Hlen & Hdb).
-    split; [|exact Hnew].
-    rewrite Hfull. cbv zeta in Hdb. rewrite Hdb in Hg. cbn [andb] in Hg.
-    eapply parse_agree; eauto.
+    pose proof Hrel as (Ht & D & NE & Hm & Hr).
+    assert (Hlt : isn < seq) by (now apply N.leb_gt in Hw).
+    assert (Hre : is_retrans tds (mkTd seq pay) = exact_dup (d_segs d) (seq_offset isn seq) pay).
+    { rewrite Ht. now apply retrans_exact_dup. }
+    destruct (exact_dup (d_segs d) (seq_offset isn seq) pay) eqn:Ex.
+    - left. split; [exact Hre|]. now apply (exact_dup_all_placed _ (d_segs d)).
+    - right. rewrite andb_true_r in Ha. cbn [negb] in Ha.
+      destruct (dir_advance2 data0 d isn tds seq pay H0 Hs Hp Hrel Hw Ha) as (Hnew & Hfull & (rest & Hrest) & Hlen & Hdb).
+      split; [exact Hre|]. split.
+      { destruct pay as [|b0 pay']; [congruence|]. now apply any_not_all. }
+      split; [|exact Hnew].
+      rewrite Hfull. cbv zeta in Hdb. rewrite Hdb in Hg. cbn [andb] in Hg.
+      eapply parse_agree; eauto.
   Qed.
 
   Lemma sim_client_data2 st cs e c isn d ro b r :
@@ -450,7 +496,7 @@ Section Reorder.
     dir_data parse_req (sc_c c) isn (e_seq e) (e_pay e) = (d, ro) ->
     let cs1 := conn_replace (mkConn (sc_id c) d (sc_s c)) cs in
     classify_dir parse_req (sc_c c) isn (e_seq e) (e_pay e) = (false, false, false) ->
-    (e_fin e || e_rst e) && negb (both_done (e_conn e) cs1) = false ->
+    (e_rst e || (e_fin e && negb (client_done (e_conn e) cs1))) && negb (both_done (e_conn e) cs1) = false ->
     exists st1, stepM st (wire e) = (st1, match ro with Some q => OReq q | None => ONone end)
                 /\ Inv2 st1 cs1 /\ c_cap st1 = c_cap st.
   Proof.
@@ -459,7 +505,9 @@ Section Reorder.
     pose proof (lookup_id _ _ _ L) as Hid.
     assert (BD : both_done id cs1 = d_done d && d_done (sc_s c)).
     { unfold cs1. erewrite both_done_replace; [reflexivity | exact L | exact Hid]. }
-    rewrite BD in Hfin. clear BD.
+    assert (CD : client_done id cs1 = d_done d).
+    { unfold cs1. erewrite client_done_replace; [reflexivity | exact L | exact Hid]. }
+    rewrite BD, CD in Hfin. clear BD CD.
     pose proof HI as (K & Len & R). specialize (R id). rewrite L in R.
     rewrite (wire_client e Hc). fold id. unfold step. cbn [g_src g_dst g_sport g_dport g_syn].
     change (cip id, sip, cport id, 80) with (ckey id). change (sip, cip id, 80, cport id) with (skey id).
@@ -469,16 +517,15 @@ Section Reorder.
       unfold dir_data in Hdd.
       destruct (d_done (sc_c c)) eqn:Dc.
       + (* request already reported: the segment is discarded *)
-        injection Hdd as <- <-. rewrite F5. cbn [negb]. unfold finish. cbn [g_fin g_rst]. rewrite F5, F6. cbn [andb].
-        rewrite Dc in Hfin. cbn [andb] in Hfin.
+        injection Hdd as <- <-. rewrite F5. cbn [negb andb]. rewrite Dc in Hfin.
         destruct (d_done (sc_s c)) eqn:Ds.
-        * eexists. split; [reflexivity|]. split; [|reflexivity].
+        * rewrite finish_both; [|exact F5|exact F6]. eexists. split; [reflexivity|]. split; [|reflexivity].
           eapply Inv2_replace; try eassumption.
           -- now apply keys_ok_remove.
           -- apply len_remove.
           -- intros id' N. now apply frame_remove.
           -- rewrite get_remove_ckey. cbn. auto.
-        * cbn [negb andb] in Hfin. rewrite andb_true_r in Hfin. rewrite Hfin.
+        * rewrite finish_keep; [|right; exact F6|rewrite F5; fin_tac Hfin].
           eexists. split; [reflexivity|]. split; [|reflexivity].
           eapply Inv2_replace; try eassumption; [lia | reflexivity |].
           rewrite G. cbn. unfold flow_rel2. cbn [sc_c sc_s]. rewrite Dc, Ds. repeat split; auto; congruence.
@@ -487,19 +534,25 @@ Section Reorder.
         rewrite F5. cbn [negb]. cbv zeta.
         assert (Hne : e_pay e <> []) by (rewrite Hpay; discriminate).
         destruct (step_parse parse_req [mkTd isn []] (sc_c c) isn (f_cdata f) (e_seq e) (e_pay e)
-                    req_stable (or_intror eq_refl) Hseq Hne Dc Hdrel Hcl) as [Hfull Hnew].
-        rewrite Hpay in Hfull, Hnew, Hdd. rewrite Hfull.
+                    req_stable (or_intror eq_refl) Hseq Hne Dc Hdrel Hcl) as [(Hret & Hall) | (Hret & Hall & Hfull & Hnew)].
+        { (* exact retransmission: nothing changes on either side *)
+          rewrite Hpay in Hret, Hall, Hdd. rewrite Hall in Hdd. injection Hdd as <- <-.
+          rewrite Hret. cbn [negb andb]. rewrite Dc in Hfin.
+          rewrite finish_keep; [|left; exact F5|rewrite F5; fin_tac Hfin].
+          eexists. split; [reflexivity|]. split; [|reflexivity].
+          eapply Inv2_replace; try eassumption; [lia | reflexivity |].
+          rewrite G. cbn. unfold flow_rel2. cbn [sc_c sc_s]. rewrite Dc. repeat split; auto. }
+        rewrite Hpay in Hfull, Hnew, Hdd, Hret, Hall. rewrite Hall in Hdd. rewrite Hret. cbn [negb andb]. rewrite Hfull.
         destruct (parse_req (prefix_from _ _ 0)) as [q|] eqn:P.
-        * injection Hdd as <- <-. unfold finish. cbn [f_cparsed f_sparsed g_fin g_rst andb]. rewrite F6.
-          cbn [d_done andb] in Hfin.
+        * injection Hdd as <- <-. cbn [d_done] in Hfin.
           destruct (d_done (sc_s c)) eqn:Ds.
-          -- eexists. split; [reflexivity|]. split; [|reflexivity].
+          -- rewrite finish_both; [|reflexivity|exact F6]. eexists. split; [reflexivity|]. split; [|reflexivity].
              eapply Inv2_replace; try eassumption.
              ++ apply keys_ok_remove. now apply keys_ok_update.
              ++ etransitivity; [apply len_remove|]. unfold set_flow. rewrite len_update. lia.
              ++ intros id' N. unfold set_flow. rewrite frame_remove by exact N. now apply frame_update.
              ++ rewrite get_remove_ckey. cbn. auto.
-          -- cbn [negb andb] in Hfin. rewrite andb_true_r in Hfin. rewrite Hfin.
+          -- rewrite finish_keep; [|right; exact F6|fin_tac Hfin].
              eexists. split; [reflexivity|]. split; [|reflexivity].
              eapply Inv2_replace; try eassumption.
              ++ now apply keys_ok_update.
@@ -507,8 +560,8 @@ Section Reorder.
              ++ intros id' N. now apply frame_update.
              ++ unfold set_flow. rewrite (get_update_ckey st id _ f G). cbn. unfold flow_rel2. cbn.
                 rewrite Ds. repeat split; auto; try congruence. intros X. discriminate.
-        * injection Hdd as <- <-. unfold finish. cbn [f_cparsed f_sparsed g_fin g_rst andb].
-          cbn [d_done andb negb] in Hfin. rewrite andb_true_r in Hfin. rewrite Hfin.
+        * injection Hdd as <- <-. cbn [d_done] in Hfin.
+          rewrite finish_keep; [|left; reflexivity|fin_tac Hfin].
           eexists. split; [reflexivity|]. split; [|reflexivity].
           eapply Inv2_replace; try eassumption.
           -- now apply keys_ok_update.
@@ -548,7 +601,7 @@ Section Reorder.
       rewrite Hpay. rewrite (on_flow_server parse_req parse_resp resp_min st id _ _ _ _ b r f F2 F4).
       unfold dir_data in Hdd.
       destruct (d_done (sc_s c)) eqn:Ds.
-      + injection Hdd as <- <-. rewrite F6. cbn [negb]. rewrite (finish_server st id f _ K).
+      + injection Hdd as <- <-. rewrite F6. cbn [negb andb]. rewrite (finish_server st id f _ K).
         eexists. split; [reflexivity|]. split; [|reflexivity].
         eapply Inv2_replace; try eassumption; [lia | reflexivity |].
         rewrite G. cbn. unfold flow_rel2. cbn [sc_c sc_s]. rewrite Ds. repeat split; auto.
@@ -556,8 +609,13 @@ Section Reorder.
         rewrite F6. cbn [negb]. cbv zeta.
         assert (Hne : e_pay e <> []) by (rewrite Hpay; discriminate).
         destruct (step_parse parse_resp [] (sc_s c) isn (f_sdata f) (e_seq e) (e_pay e)
-                    resp_stable (or_introl eq_refl) Hseq Hne Ds Hdrel Hcl) as [Hfull Hnew].
-        rewrite Hpay in Hfull, Hnew, Hdd. rewrite Hfull.
+                    resp_stable (or_introl eq_refl) Hseq Hne Ds Hdrel Hcl) as [(Hret & Hall) | (Hret & Hall & Hfull & Hnew)].
+        { rewrite Hpay in Hret, Hall, Hdd. rewrite Hall in Hdd. injection Hdd as <- <-.
+          rewrite Hret. cbn [negb andb]. rewrite (finish_server st id f _ K).
+          eexists. split; [reflexivity|]. split; [|reflexivity].
+          eapply Inv2_replace; try eassumption; [lia | reflexivity |].
+          rewrite G. cbn. unfold flow_rel2. cbn [sc_c sc_s]. rewrite Ds. repeat split; auto. }
+        rewrite Hpay in Hfull, Hnew, Hdd, Hret, Hall. rewrite Hall in Hdd. rewrite Hret. cbn [negb andb]. rewrite Hfull.
         destruct (parse_resp (prefix_from _ _ 0)) as [q|] eqn:P.
         * injection Hdd as <- <-.
           rewrite finish_server by (now apply keys_ok_update).
